@@ -19,13 +19,13 @@ EXPLANATION = "index layout i*N+n of expand_mode / diag_blocks and the intersect
 MODES = ["TE", "TM", "m2", "m3"]
 
 
-def check_expand(ctx, rng, name, factory, params):
+def check_expand(ctx, rng, name, factory, params, force_sweep=False):
     L = impl.lk()
     modes = rng.sample(MODES, rng.randint(1, 4))
-    ns = rng.choice([1, 1, 3])
+    ns = 3 if force_sweep else rng.choice([1, 1, 3])
     kw = {}
     for nm, (lo, hi) in params.items():
-        if rng.random() < 0.7:
+        if force_sweep or rng.random() < 0.7:
             kw[nm] = np.array([rng.uniform(lo, hi) for _ in range(ns)]) if ns > 1 else rng.uniform(lo, hi)
     for r in c04.REQUIRED.get(name, ()):
         kw.setdefault(r, 1.55)
@@ -74,6 +74,21 @@ def run_expand(ctx, name, factory, modes, kw, rep):
     if len(pd) != len(pd1) * len(modes):
         ctx.violation(f"C13:expand-pins:{name}", "expanded model has extra or missing pins", rep)
         return False
+    # the same expanded instance solved again at shifted parameter values ("for every parameter value")
+    if kw:
+        kw2 = {k: (np.array(v) * 0.97 + 0.01 if np.ndim(v) else v * 0.97 + 0.01) for k, v in kw.items()}
+        try:
+            S2 = np.array(ex.solve(**kw2).S)
+            R2 = np.array(factory().solve(**kw2).S)
+            for p, i in pd1.items():
+                for q, j in pd1.items():
+                    a, b = pd[L.Pin(p.name, modes[0])], pd[L.Pin(q.name, modes[0])]
+                    if not np.allclose(S2[:, a, b], R2[:, i, j], atol=1e-12):
+                        ctx.violation(f"C13:expand-wrong:{name}", f"second solve of the expanded {name} at other parameter values: ({p.name},{modes[0]})->({q.name},{modes[0]}) is not the single-mode coefficient", rep)
+                        return False
+        except Exception as e:  # noqa
+            ctx.violation(f"C13:expand-raised:{name}", f"second solve raised {type(e).__name__}", rep)
+            return False
     # queries on the expanded model
     try:
         bn = set(ex.get_pin_basenames())
@@ -201,10 +216,10 @@ def run(ctx):
     for name, (factory, params) in facts.items():
         if name in ("FPRGaussian", "UserWaveguide2m"):
             continue
-        for _ in range(reps):
+        for r in range(reps):
             if ctx.time_left() < 0:
                 return
-            check_expand(ctx, rng, name, factory, params)
+            check_expand(ctx, rng, name, factory, params, force_sweep=(r == 0))
     for i in range(ctx.budget(150, 2500)):
         if ctx.time_left() < 0:
             return
